@@ -446,7 +446,7 @@ LEVEL_TEXT = ('Machine-checked theorems over models of the text passes (for all 
               'strictly shorter subsequence; selected-line and blank-line removal and comment deletion yield subsequences, shorter whenever '
               'anything was removed; a balanced candidate is one replacement at a span reported by the matcher (balanced by C12), differs '
               'from the text and preserves everything outside the span; one-span replacements (ints, special, peep, ternary) preserve prefix '
-              'and suffix exactly. Tied to the real transform functions each run and re-checked by an independent relational checker.')
-LEVEL_NOTE = ('Trusted: Coq kernel; pass models (validated each run); CPython re. Partial: that ints/special replacements always differ from the '
+              'and suffix exactly; for the balanced passes without a prefix, when every candidate is rejected every balanced group whose replacement changes the text is offered and nothing else is (all texts, delimiters, modes). Tied to the real transform functions each run and re-checked by an independent relational checker.')
+LEVEL_NOTE = ('Trusted: Coq kernel; pass models (validated each run); CPython re. Partial: the every-instance-is-offered clause is proved for balanced (and for lines via C06), checked against independent scanners for the other passes; that ints/special replacements always differ from the '
               'match, and that peep/ternary spans come from the matcher, are checked on the real outputs, not derived from the regex syntax.')
 TECHNIQUE = 'Rocq proof (subsequence / local-edit lemmas over list models) + differential run of every pass.transform + relational checker'
